@@ -34,7 +34,8 @@ def observe(atoms, tol=TOL, order=None, with_params=True, reuse=None, keep=None)
         an = reuse
         an.set_system(atoms)
     else:
-        an = SymmetryAnalyzer(atoms, symmetry_tol=tol)
+        # documented signature (system, symmetry_tol, min_2d_thickness): by position for every second structure
+        an = SymmetryAnalyzer(atoms, tol) if len(atoms) % 2 else SymmetryAnalyzer(atoms, symmetry_tol=tol)
     if keep is not None:
         keep.append(an)
     # every public getter is read ONCE, and what it returned the first time is what the clauses judge: with `order` some
